@@ -10,6 +10,7 @@ from ..cfg import CFG, Edge, Node, build, callee_info, find_method, subclasses
 from ..core import Ctx, construct_key, norm
 from ..load import AnalysisError, Resolver, Scope, dotted, own_nodes, parent
 from ..paths import find_path, must_pass, reach, render
+from ..dataflow import resolve
 
 FILE = 'aiuti/filelock.py'
 
@@ -258,11 +259,10 @@ def c02(ctx: Ctx) -> None:
         else:
             ctx.undecided('C02-R5', inst, where, why)
     # R6
-    gr = build(r.release, p)
+    gr = build(r.release, p, inline_methods=True)
     tlrel = [n for n in gr.nodes if n.kind == 'call' and isinstance(n.ast.func, ast.Attribute)
              and n.ast.func.attr == 'release' and _self_attr(n.ast.func.value, r.tl)]
-    osrel = [n for n in gr.nodes if n.kind == 'call' and callee_info(gr, n.ast).get('name', '').endswith('.' + r.os_release.name)
-             and callee_info(gr, n.ast)['kind'] == 'package']
+    osrel = sites_of(gr, r.os_release)
     if not osrel:
         ctx.violation('C02-R6', 'release() never drops the OS lock', f'{FILE}:{r.release.lineno}',
                       construct=construct_key(r.release.qualname, 'no OS release'))
@@ -362,6 +362,19 @@ def c02(ctx: Ctx) -> None:
     r.publish(ctx)
 
 
+def sites_of(g: CFG, callee: Scope) -> List[Node]:
+    """Nodes of g at which *callee* is invoked: call nodes, or inline_enter nodes when it was inlined."""
+    out = []
+    for n in g.nodes:
+        if n.kind == 'inline_enter' and n.meta.get('name') == callee.qualname:
+            out.append(n)
+        elif n.kind == 'call':
+            info = callee_info(g, n.ast)
+            if info['kind'] == 'package' and callee in info.get('scopes', []):
+                out.append(n)
+    return out
+
+
 def _self_attr(e: ast.AST, attr: str) -> bool:
     return isinstance(e, ast.Attribute) and isinstance(e.value, ast.Name) and e.value.id == 'self' and e.attr == attr
 
@@ -371,23 +384,49 @@ def classify_oslock(p, lk: Scope, ul: Optional[Scope]) -> Tuple[str, str]:
     body = [s for s in lk.node.body if not (isinstance(s, ast.Expr) and isinstance(s.value, ast.Constant))]
     if len(body) == 1 and isinstance(body[0], ast.Raise):
         return 'refuses', 'unsupported platform: raises'
-    calls = [n for n in own_nodes(lk.node) if isinstance(n, ast.Call)]
-    res = Resolver(lk)
+    glk = build(lk, p)
+    res = glk.res
     params = lk.params
     if len(params) < 3:
         return 'unknown', 'signature is not (self, fd, block)'
     fdp, blockp = params[1], params[2]
-    prim = [c for c in calls if (res.path(c.func) or '').split('.')[0] in ('fcntl', 'msvcrt')]
-    if len(prim) != 1:
-        return 'unknown', f'{len(prim)} locking primitive calls'
-    c = prim[0]
-    name = res.path(c.func)
+    prim_nodes = [n for n in glk.nodes if n.kind == 'call' and (res.path(resolve(glk, n, n.ast.func)) or res.path(n.ast.func) or '').split('.')[0] in ('fcntl', 'msvcrt')]
+    if len(prim_nodes) != 1:
+        return 'unknown', f'{len(prim_nodes)} locking primitive calls'
+    pn = prim_nodes[0]
+    name = res.path(resolve(glk, pn, pn.ast.func)) or res.path(pn.ast.func)
+    # arguments with local temporaries substituted (parameters stay as they are)
+    c = ast.Call(func=pn.ast.func, args=[resolve(glk, pn, a, keep=tuple(params)) for a in pn.ast.args], keywords=[])
+    # path-sensitive folding: `if block: mode = A else: mode = B` - per path, the value of the flag
+    # argument and what the path decided about `block`
+    from ..sym import enum_paths, sym_env, subst
+    from ..paths import walk_env, decisions
+    per_block: Dict[bool, List[ast.expr]] = {True: [], False: []}
+    for pth in enum_paths(glk, [pn], sources=[glk.entry]):
+        dec = decisions(walk_env(glk, pth)).get(('p', blockp))
+        env = sym_env(glk, pth)
+        a1 = subst(pn.ast.args[1], env) if len(pn.ast.args) > 1 else None
+        for b in ((True, False) if dec is None else (dec,)):
+            per_block[b].append(a1)
+
+    def fold_for(b: bool) -> Optional[Set[str]]:
+        outs = []
+        for a1 in per_block[b]:
+            if a1 is None:
+                return None
+            bits = fold_bits(a1, {blockp: b}, res)
+            if bits is None:
+                return None
+            outs.append(frozenset(bits))
+        if not outs or len(set(outs)) != 1:
+            return None
+        return set(outs[0])
     if name == 'fcntl.flock':
         if len(c.args) != 2 or not (isinstance(c.args[0], ast.Name) and c.args[0].id == fdp):
             return 'bad', 'flock is not applied to the descriptor argument'
         out = {}
         for b in (True, False):
-            bits = fold_bits(c.args[1], {blockp: b}, res)
+            bits = fold_for(b)
             if bits is None:
                 return 'unknown', f'flag expression {norm(c.args[1])} not foldable'
             out[b] = bits
@@ -407,7 +446,7 @@ def classify_oslock(p, lk: Scope, ul: Optional[Scope]) -> Tuple[str, str]:
             return 'bad', 'locking is not applied to the descriptor argument'
         out = {}
         for b in (True, False):
-            bits = fold_bits(c.args[1], {blockp: b}, res)
+            bits = fold_for(b)
             if bits is None:
                 return 'unknown', f'mode expression {norm(c.args[1])} not foldable'
             out[b] = bits
@@ -556,9 +595,8 @@ def c12(ctx: Ctx) -> None:
                               'a path through release() does not release the in-process lock', witness=s.trace,
                               construct=construct_key(r.release.qualname, 'TL kept'))
         # specifically: paths where the OS release raised
-        gr = build(r.release, p)
-        osrel = [n for n in gr.nodes if n.kind == 'call' and callee_info(gr, n.ast)['kind'] == 'package'
-                 and r.os_release in callee_info(gr, n.ast).get('scopes', [])]
+        gr = build(r.release, p, inline_methods=True)
+        osrel = sites_of(gr, r.os_release)
         tlrel = [n for n in gr.nodes if n.kind == 'call' and isinstance(n.ast.func, ast.Attribute)
                  and n.ast.func.attr == 'release' and _self_attr(n.ast.func.value, r.tl)]
         failed = [o for o in outs if o.state.facts.get('raised:' + r.os_release.name)]
@@ -867,6 +905,8 @@ def _rule_arguments(ctx: Ctx, r: LockRoles) -> None:
                 a_t = _eval_abs(k.value, env, default_attr)
         oc = os_calls[0].ast
         blk = oc.args[0] if oc.args else next((k.value for k in oc.keywords if k.arg == 'block'), None)
+        if blk is not None:
+            blk = resolve(g, os_calls[0], blk, keep=(bp, tp))
         a_os = _eval_abs(blk, env, default_attr) if blk is not None else ('bool', True)
         good = a_b == eb and a_os == eos and (
             (et == 'nowait' and a_t is not None and a_t[0] == 'num' and a_t[1] == 'neg') or a_t == et)
@@ -913,7 +953,7 @@ def _rule_arguments(ctx: Ctx, r: LockRoles) -> None:
         kind AB: `0 <= timeout < elapsed`"""
         if n.kind != 'branch':
             return None
-        t = n.meta['test']
+        t = resolve(g, n, n.meta['test'], keep=(tp,) + tuple(clockvars))
         if not isinstance(t, ast.Compare):
             return None
         names = {x.id for x in ast.walk(t) if isinstance(x, ast.Name)}
